@@ -9,6 +9,7 @@ if [ -n "$(git status --porcelain --untracked-files=no)" ]; then echo "/repo is 
 if ! git apply "$PATCH"; then echo "patch does not apply: $PATCH" >&2; exit 2; fi
 # restore /repo and rebuild the harness against the restored tree (so that no stale binary is left behind)
 trap 'cd /repo && git checkout -- . && cd /verif/harness && cargo build --release --offline >/dev/null 2>&1' EXIT
+export VERIF_EVIDENCE_DIR=/verif/harness/target-scratch/seeded-evidence
 for ID in "$@"; do
   out=$(cd /verif && VERIF_SEED=${VERIF_SEED:-1} timeout 1800 ./run.sh "$ID" quick 2>&1)
   code=$?
